@@ -1,6 +1,6 @@
 (** C01 Lossless syntax tree.  ONLY statements; proofs are in proofs/ParserTile.v, proofs/GTile.v. *)
 From Coq Require Import List NArith.
-From TG.Gen Require Import GenTokens GenGrammar GenGrammarCert.
+From TG.Gen Require Import GenTokens GenGrammar GenGrammarCert GenLibGlue.
 From TG.Model Require Import Chars Lexer Prep Tree ParserPrims GInterp.
 From TG.Model Require Import ParserMonad.
 From TG.Proofs Require Import LexBasics ParserTile GTile LookProg ParserTop GenParserEq ParserSource.
@@ -101,3 +101,24 @@ Proof. exact source_lossless. Qed.
 Check C01_lossless_source : forall (fuel : nat) (txt : text) t es,
   gparse_with fuel grammar_prog grammar_entry txt = GParseOk t es -> C01_lossless_stmt txt t.
 Print Assumptions C01_lossless_source.
+
+(** ... and for `syntax::parse` ITSELF, rendered from the current crates/syntax/src/lib.rs (tools/translate/t_libglue.py,
+    gen/GenLibGlue.v: Lexer::new -> PreProcessor::new -> Parser::new -> grammar::source_file -> Parser::finish ->
+    `Parse { green_node, errors }`; [ParserSource.lib_parse] = that rendering with the regenerated grammar program as
+    `grammar::source_file`): it is [gparse_with], its tree is lossless, `Parse::syntax_node` is that tree located at
+    offset 0 and `Parse::errors` the error list. *)
+Theorem C01_parse_is_source : forall (fuel : nat) (txt : text),
+  lib_parse fuel txt = gparse_with fuel grammar_prog grammar_entry txt.
+Proof. exact lib_parse_is_gparse. Qed.
+Check C01_parse_is_source : forall (fuel : nat) (txt : text),
+  lib_parse fuel txt = gparse_with fuel grammar_prog grammar_entry txt.
+Print Assumptions C01_parse_is_source.
+
+Theorem C01_lossless_lib_parse : forall (fuel : nat) (txt : text) t es,
+  lib_parse fuel txt = GParseOk t es ->
+  C01_lossless_stmt txt t /\ glib_syntax_node (mk_parse t es) = (0, t) /\ glib_errors (mk_parse t es) = es.
+Proof. exact lib_parse_lossless. Qed.
+Check C01_lossless_lib_parse : forall (fuel : nat) (txt : text) t es,
+  lib_parse fuel txt = GParseOk t es ->
+  C01_lossless_stmt txt t /\ glib_syntax_node (mk_parse t es) = (0, t) /\ glib_errors (mk_parse t es) = es.
+Print Assumptions C01_lossless_lib_parse.
